@@ -5,6 +5,7 @@ go 1.23.0
 require (
 	github.com/mmcloughlin/avo v0.0.0
 	golang.org/x/arch v0.15.0
+	golang.org/x/sys v0.31.0
 )
 
 require (
